@@ -39,7 +39,7 @@ Labels: ``<op>:<feature>:<symptom>`` with symptom in requested-key-missing / eva
 dependency-map, or ``<op>:<feature>:<Exc>@file:function`` when the optimiser itself raises.
 
 Calibration (unchanged tree)
-* genuine, in PENDING (hand-replayed, /verif/findings_proposed/C09.md):
+* genuine (hand-replayed, /verif/findings_proposed/C09.md; both since fixed in /repo, PENDING is empty again):
   - ``fuse(ave_width=inf)`` raises OverflowError (``int(ave_width - 1)``) when a fusion is refused below the top;
   - ``fuse_linear_task_spec`` on chains whose top key is not str-named stores the fused task under ``None`` and
     turns the top key into a self-alias (values lost; ``dask.get`` hangs on the cycle).
@@ -52,6 +52,10 @@ Calibration (unchanged tree)
     are unaffected because graphs are executed by dict key).
   - a returned graph that is cyclic or has a dangling dependency is reported as ``evaluation-fails`` by a harness
     walk and is never handed to the executors (``dask.get`` blocks forever on a self-alias; seen as a watchdog hit).
+  - ``dask.core.get`` executes EVERY node of the graph it is given.  After the linear-fusion defect above left an
+    unrelated, unrequested self-alias in the graph, ``resolve_aliases`` output was reported as failing although the
+    requested keys were computable (thorough run, label ``resolve_aliases:after-linear-fusion:evaluation-fails``).
+    The statement is about the requested keys: both executors now get the sub-graph reachable from them (harness walk).
   - graphs were first emitted in topological dict order only; ``fuse_linear_task_spec``/``fuse_linear`` iterate
     ``for key in dsk`` so a seeded mutant (fusing through a shared dependency) escaped.  Reversed / random
     insertion orders were added (generator widened, oracle unchanged).
@@ -97,12 +101,13 @@ CLAIM = ("Every call of cull / inline / inline_functions / fuse_linear / fuse / 
          "Held means no counterexample among the executions observed (complete for the small space named above).")
 CASE_TIMEOUT = 120
 
-PENDING = {
-    "fuse:ave_width=inf:OverflowError@optimization.py:fuse":
-        "fuse(ave_width=inf) raises OverflowError (int(ave_width - 1)) whenever a fusion is refused below the top of a reduction",
-    "fuse_linear_task_spec:keys=some-not-str-named:evaluation-fails":
-        "a fused chain whose top key is not a str / (str, ...) key is stored under the key None and the top key becomes a self-alias",
-}
+# Both mechanisms found on the pinned tree were fixed in /repo by the lead (commits "fix: fuse(ave_width=inf) raises
+# OverflowError when a fusion is refused" and "fix: fuse_linear_task_spec breaks graphs whose keys are not str or
+# (str, ...) tuples"); their labels were
+#   fuse:ave_width=inf:OverflowError@optimization.py:fuse
+#   fuse_linear_task_spec:keys=some-not-str-named:evaluation-fails
+# Nothing fires on the current tree.
+PENDING = {}
 
 FLOORS = {
     # ~45 % of the counts of a complete run on the unchanged tree (seed 0: 3170 cases, 1.75 M optimiser calls)
@@ -116,10 +121,16 @@ FLOORS = {
                            "changed:fuse_linear_task_spec": 7400, "changed:resolve_aliases": 6700,
                            "changed:Task.fuse": 18000, "changed:substitute": 22000},
               "sets": {"fuse_settings": 150}},
-    "thorough": {"evaluations": 9000, "distinct_nontrivial": 8500, "max_skipped_fraction": 0.05,
-                 "counters": {"optimiser_calls": 8000000, "dependency_maps_checked": 5000000,
-                              "graphs_changed_by_optimiser": 3000000, "evaluated_with_core_get": 1000000,
-                              "evaluated_with_dask_get": 300000, "baseline_graphs_agreeing_with_harness": 20000},
+    # thorough, unchanged tree, seed 0: 20395+ cases, 34.9 M optimiser calls
+    "thorough": {"evaluations": 9500, "distinct_nontrivial": 9000, "max_skipped_fraction": 0.05,
+                 "counters": {"optimiser_calls": 15000000, "requested_subsets": 110000,
+                              "requested_values_compared": 45000000, "dependency_maps_checked": 13000000,
+                              "graphs_changed_by_optimiser": 6000000, "evaluated_with_core_get": 800000,
+                              "evaluated_with_dask_get": 280000, "baseline_graphs_agreeing_with_harness": 22000,
+                              "changed:cull": 270000, "changed:fuse": 4800000, "changed:fuse_linear": 115000,
+                              "changed:inline": 150000, "changed:inline_functions": 150000,
+                              "changed:fuse_linear_task_spec": 35000, "changed:resolve_aliases": 26000,
+                              "changed:Task.fuse": 150000, "changed:substitute": 270000},
                  "sets": {"fuse_settings": 150}},
 }
 
@@ -375,23 +386,25 @@ class Env:
                            "requested %r; missing from the returned graph: %r" % (req, missing),
                            call=call, returned=_short(new))
             return False
-        # an outcome is reused only for a structurally identical returned graph and the same request
-        sig = (_gsig_graph(new), tuple(map(repr, req)))
+        # Only the part of the returned graph the requested keys reach is executed: the statement speaks about the
+        # requested keys, and dask.core.get would otherwise run every node of the graph (also unrelated ones).
+        broken, part = _reachable(new, req)
+        # an outcome is reused only for a structurally identical reachable sub-graph and the same request
+        sig = (_gsig_graph(part), tuple(map(repr, req)))
         hit = self.cache.get(sig)
         if hit is not None:
             ctx.count("executions_reused_for_identical_returned_graph")
             res, e = hit[1], hit[2]
         else:
             try:
-                broken = _not_executable(new, req)
                 if broken:      # never hand a cyclic / dangling graph to the executors (dask.get can hang on a cycle)
                     raise _Broken(broken)
-                res, e = self.evaluate(new, req), None
+                res, e = self.evaluate(part, req), None
             except Exception as exc:  # noqa: BLE001
                 if type(exc).__name__ == "CaseTimeout":
                     raise
                 res, e = None, exc
-            self.cache[sig] = (new, res, e)
+            self.cache[sig] = (part, res, e)
         if e is not None:
             self.violation("%s:%s:evaluation-fails" % (op, feat),
                            ("the returned graph cannot be executed for %r: %s" % (req, e)) if isinstance(e, _Broken) else
@@ -430,32 +443,40 @@ class _Broken(Exception):
     pass
 
 
-def _not_executable(dsk, req):
-    """Harness walk from the requested keys: a dependency that is not a key, or a dependency cycle."""
+def _reachable(dsk, req):
+    """Harness walk from the requested keys -> (problem or None, sub-graph reached, in the order of ``dsk``).
+    A problem is a dependency that is not a key, or a dependency cycle."""
     state = {}
+    problem = None
     for r in req:
-        if r in state:
+        if r in state or problem:
             continue
         stack = [(r, None)]
-        while stack:
+        while stack and not problem:
             k, it = stack[-1]
             if it is None:
                 if k not in dsk:
-                    return "dependency %r is not a key of the returned graph" % (k,)
+                    problem = "dependency %r is not a key of the returned graph" % (k,)
+                    break
                 state[k] = 1
                 it = iter(sorted(_true_deps(dsk, k), key=repr))
                 stack[-1] = (k, it)
             for d in it:
                 st = state.get(d)
                 if st == 1:
-                    return "the returned graph has a dependency cycle through %r" % (d,)
+                    problem = "the returned graph has a dependency cycle through %r" % (d,)
+                    break
                 if st is None:
                     stack.append((d, None))
                     break
             else:
                 state[k] = 2
                 stack.pop()
-    return None
+    return problem, {k: v for k, v in dsk.items() if k in state}
+
+
+def _not_executable(dsk, req):
+    return _reachable(dsk, req)[0]
 
 
 _ATOMS = (str, int, float, bool, type(None), bytes)
